@@ -159,12 +159,16 @@ def run(run):
     ]
     for d in par.map_shards(shard, args, procs):
         run.merge(d)
+    fuzz_stage(run, quick)
     run.rule = (
         "Hypothesis-generated token soups over the full wikitext token "
         "alphabet, grammar documents, mutations of the repository's test "
         "pages and deep nestings (<=100), each parsed plainly / expand_all / "
         "pre_expand against a structure-emitting template library; oracle = "
-        "R-tree validity predicate + empty parser stack + follow-up parse. "
+        "R-tree validity predicate + empty parser stack + follow-up parse; "
+        "plus coverage-guided atheris campaigns (structured token-index and "
+        "raw UTF-8 decodings, empty and seeded corpus) with the same oracle "
+        "inside the target. "
         "Non-trivial = input contains >= 3 distinct structural token classes; "
         "distinct by SHA-1 of (text, mode)."
     )
@@ -173,6 +177,75 @@ def run(run):
         "(documented in common.py) and are not generated",
         "RecursionError beyond nesting 100 is outside the property's bound",
     ]
+
+
+def _fuzz_campaign(args):
+    """One libFuzzer campaign of tools/fuzz_parse.py in a subprocess."""
+    import json
+    import shutil
+    import subprocess
+    import sys
+    import tempfile
+
+    idx, seed, runs, with_corpus = args
+    d = tempfile.mkdtemp(prefix="verif-c01-fuzz-")
+    try:
+        corpus = d + "/corpus"
+        import os
+
+        os.makedirs(corpus)
+        if with_corpus:
+            for i, t in enumerate(mut.seeds()[:40]):
+                with open(f"{corpus}/seed{i}", "wb") as f:
+                    f.write(b"\x05" + t.encode("utf-8")[:400])
+        out = d + "/violation.json"
+        r = subprocess.run(
+            [sys.executable, str(env.VERIF / "tools" / "fuzz_parse.py"), out,
+             f"-runs={runs}", f"-seed={seed * 100 + idx + 1}", "-max_len=300",
+             "-timeout=30", corpus],
+            capture_output=True, text=True, timeout=3600)
+        log = r.stderr + r.stdout
+        done = re.search(r"Done (\d+) runs", log)
+        n = int(done.group(1)) if done else 0
+        cov = re.findall(r"cov: (\d+)", log)
+        res = {"runs": n, "cov": int(cov[-1]) if cov else 0,
+               "corpus": len(os.listdir(corpus)), "rc": r.returncode,
+               "with_corpus": with_corpus}
+        if os.path.exists(out):
+            res["violation"] = json.load(open(out))
+        elif r.returncode not in (0,) and not done:
+            res["error"] = log[-400:]
+        return res
+    finally:
+        shutil.rmtree(d, ignore_errors=True)
+
+
+def fuzz_stage(run, quick):
+    """Coverage-guided campaign (atheris) with the same oracle inside the
+    target; both an empty corpus and a corpus of the repository's test pages."""
+    try:
+        import atheris  # noqa: F401
+    except Exception as e:  # optional tool: recorded, not an error
+        run.extra["atheris"] = f"unavailable: {e!r}"[:120]
+        return
+    if quick:
+        jobs = [(0, run.seed, 12000, False), (1, run.seed, 12000, True)]
+    else:
+        jobs = [(i, run.seed, 400000, i % 2 == 1) for i in range(8)]
+    res = par.map_shards(_fuzz_campaign, [(j,) for j in jobs],
+                         min(len(jobs), par.nprocs(run.tier)))
+    total = sum(r["runs"] for r in res)
+    run.evaluations += total
+    run.classes["gen:atheris"] += total
+    run.section("atheris", campaigns=len(res), executions=total,
+                final_corpus_sizes=[r["corpus"] for r in res],
+                coverage_edges=[r["cov"] for r in res],
+                errors=[r["error"] for r in res if "error" in r])
+    for r in res:
+        v = r.get("violation")
+        if v:
+            run.violation(v["signature"], "atheris: " + v["what"],
+                          {"text": v["text"], "mode": v["mode"]})
 
 
 def replay(run, case):
